@@ -885,16 +885,130 @@ func Plants(p Params) []Plant {
 			}
 		}
 	}
-	// PACKAGE_NO_IMPORT_CYCLE: file B (package A) starts using package B, which imports package A.
-	c.add("package-import-cycle", "PACKAGE_NO_IMPORT_CYCLE", "file1->file2->file0", nil, func(s *Spec) []Expect {
-		fb, fc := s.Files[1], s.Files[2]
-		im := &Import{Target: fc}
-		fb.Imports = append(fb.Imports, im)
-		holder := fc.Messages[0]
-		target := fb.Messages[0]
-		target.Fields = append(target.Fields, &Field{Name: "cycle_" + Palettes[p.Palette].FMid, Doc: p.Doc, Type: Type{Msg: holder}, Number: 15})
-		return []Expect{must("PACKAGE_NO_IMPORT_CYCLE", im, "decl"), must("PACKAGE_NO_IMPORT_CYCLE", fc.Imports[0], "decl")}
-	})
+	// PACKAGE_NO_IMPORT_CYCLE. Package B (file C) imports package A (file A). A cycle appears as soon as
+	// package A starts importing package B; every import statement that forms an edge of the package
+	// cycle is offending, however many statements form the same package -> package edge. The edge A -> B is
+	// made of every non-empty subset of
+	//   c1: file B (package A) imports file C            (the usual single statement)
+	//   c2: file A (package A) imports X, a new leaf file of package B   (second file of the package)
+	//   c3: file B imports X, as first or as last import of the file     (second statement of one file)
+	// and the edge B -> A optionally gets a second statement
+	//   c4: Y, a new file of package B, imports file A.
+	// Every new import is used (a field of an imported message type is added).
+	b := &builder{p: p, pal: Palettes[p.Palette], o: o}
+	newFile := func(s *Spec, like *File, pkgFirst, stem, msgName string, payload Type) (*File, *Message) {
+		f := &File{Dir: like.Dir, Base: stem + ".proto", Syntax: "proto3", Header: p.Header,
+			Pkg: &PkgStmt{like.Pkg.Name}, Options: b.fileOptions(pkgFirst)}
+		m := &Message{Name: msgName, Doc: p.Doc}
+		m.Fields = append(m.Fields, b.field("proto3", b.pal.FID, payload, 1, ""))
+		f.Messages = append(f.Messages, m)
+		s.Files = append(s.Files, f)
+		return f, m
+	}
+	useIn := func(f *File, m *Message, name string, t Type, num int) {
+		m.Fields = append(m.Fields, b.field(f.Syntax, name, t, num, ""))
+	}
+	for mask := 1; mask < 8; mask++ {
+		for _, c3first := range []bool{false, true} {
+			if c3first && mask&4 == 0 {
+				continue
+			}
+			for _, c4 := range []bool{false, true} {
+				var parts []string
+				if mask&1 != 0 {
+					parts = append(parts, "fileB-fileC")
+				}
+				if mask&2 != 0 {
+					parts = append(parts, "fileA-newX")
+				}
+				if mask&4 != 0 {
+					if c3first {
+						parts = append(parts, "fileB-newX(first)")
+					} else {
+						parts = append(parts, "fileB-newX(last)")
+					}
+				}
+				back := "fileC-fileA"
+				if c4 {
+					back += ",newY-fileA"
+				}
+				nForward := len(parts)
+				op, site := "package-import-cycle/multi-import-edge", "A->B:"+strings.Join(parts, ",")+";B->A:"+back
+				switch {
+				case mask == 1 && !c4:
+					op, site = "package-import-cycle", "file1->file2->file0"
+				case nForward == 1 && !c4:
+					op = "package-import-cycle/via-second-file"
+				}
+				c.add(op, "PACKAGE_NO_IMPORT_CYCLE", site, nil, func(s *Spec) []Expect {
+					fa, fb, fc := s.Files[0], s.Files[1], s.Files[2]
+					holder := fc.Messages[0]
+					target := fb.Messages[0]
+					var x *File
+					var xMsg *Message
+					if mask&6 != 0 {
+						x, xMsg = newFile(s, fc, b.pal.PkgB, b.pal.FileC+"_extra", b.pal.Holder+"Extra", scalar("string"))
+					}
+					var ex []Expect
+					if mask&1 != 0 {
+						im := &Import{Target: fc}
+						fb.Imports = append(fb.Imports, im)
+						useIn(fb, target, "cycle_"+b.pal.FMid, Type{Msg: holder}, 15)
+						ex = append(ex, must("PACKAGE_NO_IMPORT_CYCLE", im, "decl"))
+					}
+					if mask&2 != 0 {
+						im := &Import{Target: x}
+						fa.Imports = append(fa.Imports, im)
+						useIn(fa, fa.Messages[1], "extra_"+b.pal.FMid, Type{Msg: xMsg}, 15)
+						ex = append(ex, must("PACKAGE_NO_IMPORT_CYCLE", im, "decl"))
+					}
+					if mask&4 != 0 {
+						im := &Import{Target: x}
+						addImport(fb, im, c3first)
+						useIn(fb, target, "extra_"+b.pal.FMid, Type{Msg: xMsg}, 16)
+						ex = append(ex, must("PACKAGE_NO_IMPORT_CYCLE", im, "decl"))
+					}
+					ex = append(ex, must("PACKAGE_NO_IMPORT_CYCLE", fc.Imports[0], "decl"))
+					if c4 {
+						y, _ := newFile(s, fc, b.pal.PkgB, b.pal.FileC+"_more", b.pal.Holder+"More", Type{Msg: fa.Messages[0]})
+						im := &Import{Target: fa}
+						y.Imports = append(y.Imports, im)
+						ex = append(ex, must("PACKAGE_NO_IMPORT_CYCLE", im, "decl"))
+					}
+					return ex
+				})
+			}
+		}
+	}
+	// A cycle over three packages, A -> E -> C -> A (package B imports A but is not on the cycle: its
+	// import is not offending); optionally the edge E -> C is made of two statements.
+	if p.Leaves {
+		for _, double := range []bool{false, true} {
+			op, site := "package-import-cycle/three-packages", "file1->file4->file3->file0"
+			if double {
+				op, site = "package-import-cycle/multi-import-edge", "A->E:fileB-fileE;E->C:fileE-fileD,fileE-newZ;C->A:fileD-fileA"
+			}
+			c.add(op, "PACKAGE_NO_IMPORT_CYCLE", site, nil, func(s *Spec) []Expect {
+				fa, fb, fd, fe := s.Files[0], s.Files[1], s.Files[3], s.Files[4]
+				imBE := &Import{Target: fe}
+				fb.Imports = append(fb.Imports, imBE)
+				useIn(fb, fb.Messages[0], "cycle_"+b.pal.FMid, Type{Msg: fe.Messages[0]}, 15)
+				imDA := &Import{Target: fa}
+				fd.Imports = append(fd.Imports, imDA)
+				useIn(fd, fd.Messages[0], "cycle_"+b.pal.FOuter, Type{Msg: fa.Messages[0]}, 15)
+				ex := []Expect{must("PACKAGE_NO_IMPORT_CYCLE", imBE, "decl"), must("PACKAGE_NO_IMPORT_CYCLE", fe.Imports[0], "decl"),
+					must("PACKAGE_NO_IMPORT_CYCLE", imDA, "decl")}
+				if double {
+					z, zMsg := newFile(s, fd, b.pal.PkgC, b.pal.FileD+"_extra", "Legacy"+b.pal.Holder+"Extra", scalar("string"))
+					im := &Import{Target: z}
+					addImport(fe, im, true)
+					useIn(fe, fe.Messages[0], "extra_"+b.pal.FMid, Type{Msg: zMsg}, 15)
+					ex = append(ex, must("PACKAGE_NO_IMPORT_CYCLE", im, "decl"))
+				}
+				return ex
+			})
+		}
+	}
 
 	// ---------------------------------------------------------------- FIELD_NOT_REQUIRED
 	for i, fa := range probe.AllFields() {
